@@ -5,6 +5,7 @@ package db
 // override, through Set / SetReader / Create.  Oracle lines: `<write result> <value read afterwards>`.
 
 import (
+	"io"
 	"bufio"
 	"bytes"
 	"errors"
@@ -25,9 +26,13 @@ type c10Fail struct {
 	pos    int
 }
 
+// the errors a failing source may return: none of them is a clean end of the stream
+var c10SourceErrs = []error{errors.New("source reader failed"), io.ErrUnexpectedEOF,
+	fmt.Errorf("body shorter than announced: %w", io.EOF), io.ErrClosedPipe}
+
 func (r *c10Fail) Read(p []byte) (int, error) {
 	if r.pos >= r.failAt {
-		return 0, errors.New("source reader failed")
+		return 0, c10SourceErrs[(len(r.b)+r.failAt)%len(c10SourceErrs)]
 	}
 	n := len(p)
 	if r.pos+n > r.failAt {
